@@ -27,24 +27,26 @@ PatByte(mul, add, i) == ((i * mul) + add) % 256
 (*            a short read sets eofbit|failbit                              *)
 (*  peek()  : sentry as above; at end of data sets eofbit only              *)
 (*  seekg(p): clears eofbit first; if fail() is (still) set nothing moves;  *)
-(*            non-seekable buffer or p > len -> failbit                     *)
+(*            non-seekable buffer -> failbit; p > len -> failbit for a      *)
+(*            string buffer, but a file buffer (st.pastend) accepts any     *)
+(*            position and simply has nothing to read there                 *)
 (* fixClear = TRUE models a reader that calls clear() before seekg.         *)
 
 StGood(st) == ~st.eofb /\ ~st.failb
 
 StRead(st, n) ==
   IF ~StGood(st) THEN [st |-> [st EXCEPT !.failb = TRUE], k |-> 0]
-  ELSE LET k == Min(n, st.len - st.gpos) IN
+  ELSE LET k == Min(n, IF st.gpos >= st.len THEN 0 ELSE st.len - st.gpos) IN
        [st |-> [st EXCEPT !.gpos = @ + k, !.eofb = (k < n), !.failb = (k < n)], k |-> k]
 
 StPeek(st) ==
   IF ~StGood(st) THEN [st EXCEPT !.failb = TRUE]
-  ELSE IF st.gpos = st.len THEN [st EXCEPT !.eofb = TRUE] ELSE st
+  ELSE IF st.gpos >= st.len THEN [st EXCEPT !.eofb = TRUE] ELSE st
 
 StSeek(st, p) ==
   LET s1 == [st EXCEPT !.eofb = FALSE] IN
   IF s1.failb THEN s1
-  ELSE IF ~s1.seekable \/ p > s1.len THEN [s1 EXCEPT !.failb = TRUE]
+  ELSE IF ~s1.seekable \/ (p > s1.len /\ ~s1.pastend) THEN [s1 EXCEPT !.failb = TRUE]
   ELSE [s1 EXCEPT !.gpos = p]
 
 StClear(st) == [st EXCEPT !.eofb = FALSE, !.failb = FALSE]
@@ -64,8 +66,8 @@ RNC(m) ==
            rd == StRead(m1.st, m1.C - m1.bend)
        IN [m |-> [m1 EXCEPT !.st = rd.st, !.bend = @ + rd.k, !.spos = @ + rd.k], ret |-> rd.k # 0]
 
-MInit(len, seekable, C) ==
-  RNC([st |-> [len |-> len, gpos |-> 0, eofb |-> FALSE, failb |-> FALSE, seekable |-> seekable],
+MInit(len, seekable, pastend, C) ==
+  RNC([st |-> [len |-> len, gpos |-> 0, eofb |-> FALSE, failb |-> FALSE, seekable |-> seekable, pastend |-> pastend],
        bstart |-> 0, bend |-> 0, spos |-> 0, C |-> C]).m
 
 \* Each public call returns [m |-> new state, res |-> result].  Results:
@@ -74,14 +76,28 @@ MInit(len, seekable, C) ==
 \* Views are reported as offsets: buffer content == stream[spos-bend, spos) is an M invariant that the
 \* trace validation checks against the real bytes.
 
+\* ++mStartDataPtr; if it hits the end of data, ReadNextChunk()
+MAdvance1(m) ==
+  LET m1 == [m EXCEPT !.bstart = @ + 1] IN IF m1.bstart = m1.bend THEN RNC(m1).m ELSE m1
+
 \* fix: variant of the code.  "orig" = pinned tree, "clear" = clear() the stream state before seekg,
-\*      "clear+fwd" = additionally emulate a forward seek by reading when the buffer is not seekable.
+\*      "probe" = additionally locate and read the byte in front of the target, because a file buffer accepts positions
+\*                beyond its end (the current tree).
 MSetPosition(m, p, fix) ==
   LET cached == m.bend IN
   IF p >= m.spos - cached /\ p < m.spos
   THEN [m |-> [m EXCEPT !.bstart = p - (m.spos - cached)], res |-> TRUE]
   ELSE IF p = m.spos
        THEN [m |-> RNC([m EXCEPT !.bstart = 0, !.bend = 0]).m, res |-> TRUE]
+       ELSE IF fix = "probe"
+       THEN LET q   == IF p = 0 THEN 0 ELSE p - 1
+                st1 == StSeek(StClear(m.st), q)
+            IN IF st1.failb THEN [m |-> [m EXCEPT !.st = st1], res |-> FALSE]
+               ELSE IF p = 0 THEN [m |-> RNC([m EXCEPT !.st = st1, !.spos = 0, !.bstart = 0, !.bend = 0]).m, res |-> TRUE]
+               ELSE LET g == StRead(st1, 1) IN          \* mStream.get()
+                    IF g.k = 0
+                    THEN [m |-> [m EXCEPT !.st = [StSeek(StClear(g.st), m.spos) EXCEPT !.failb = TRUE]], res |-> FALSE]   \* back to the end of the cached data, failbit
+                    ELSE [m |-> RNC([m EXCEPT !.st = g.st, !.spos = p, !.bstart = 0, !.bend = 0]).m, res |-> TRUE]
        ELSE LET st0 == IF fix = "orig" THEN m.st ELSE StClear(m.st)
                 st1 == StSeek(st0, p)
             IN IF ~st1.failb
@@ -91,9 +107,6 @@ MSetPosition(m, p, fix) ==
 MPeekByte(m) ==
   IF m.bstart # m.bend THEN [m |-> m, res |-> MPos(m)]
   ELSE LET r == RNC(m) IN IF r.ret THEN [m |-> r.m, res |-> MPos(r.m)] ELSE [m |-> r.m, res |-> -1]
-
-MAdvance1(m) ==   \* ++mStartDataPtr; if it hits the end of data, ReadNextChunk()
-  LET m1 == [m EXCEPT !.bstart = @ + 1] IN IF m1.bstart = m1.bend THEN RNC(m1).m ELSE m1
 
 MGotoNextByte(m) ==
   IF m.bstart # m.bend THEN [m |-> MAdvance1(m), res |-> TRUE]
